@@ -249,8 +249,11 @@ def check(col: Collector, tier: str):
             if k == "lit" and v and not v[-1].isdigit():
                 sep_ok = True
             if k == "hole":
-                d = resolve_name(un.node, v)
-                if isinstance(d, ast.IfExp) and "isdigit()" in src(d.test) and (const_str(d.body) or "") and not (const_str(d.body) or "0")[-1].isdigit():
+                # the separator chosen under "the base name ends in a digit" (if/else, conditional expression alike) is a non-digit text
+                from sa.props._tr import conditional_defs
+                arms = conditional_defs(un.node, v)
+                digit_arms = [const_str(val) for val, gs in arms if any("isdigit()" in t_ and tr_ for t_, tr_ in gs)]
+                if digit_arms and all(a_ and not a_[-1].isdigit() for a_ in digit_arms):
                     sep_ok = True
     col.add("C02.R5", un.short, "name-and-counter-cannot-run-together", sep_ok,
             f"the generated name is {shape(ps_)}: a base name ending in a digit needs a separator before the counter, otherwise two different "
